@@ -518,3 +518,15 @@ def wrap_tail_some(body):
     if not tail.strip():
         raise ExtractError('wrap_tail_some: no tail expression')
     return '{' + inner[:last + 1] + '\nSome(' + tail.strip() + ')\n}'
+
+
+def split_first_for(body):
+    """rule D5: body = `{ for PAT in ITER { B } REST }` -> (PAT, ITER, '{ B }', '{ REST }').
+    The loop must be the first statement of the function body."""
+    assert body[0] == '{' and body[-1] == '}'
+    m = re.match(r'\{\s*for (\w+) in (\w+) \{', body)
+    if not m:
+        raise ExtractError('rule D5: function body does not start with `for X in ITER {`')
+    ob = m.end() - 1
+    cb = match_close(body, ob)
+    return m.group(1), m.group(2), body[ob:cb + 1], '{' + body[cb + 1:-1] + '}'
